@@ -123,6 +123,12 @@ var c12Entries = []c12Entry{
 	{"os.lookup_gid", modos.LookupGid, func() []object.Object { return []object.Object{strArg("1")} }, "LookupGid"},
 	{"cat", modos.Cat, func() []object.Object { return []object.Object{strArg("/f")} }, "ReadFile"},
 	{"cp", modos.Copy, func() []object.Object { return []object.Object{strArg("/f"), c12Path()} }, "ReadFile"},
+	{"fmt.println-no-arguments", modfmt.Println, func() []object.Object { return nil }, "Stdout"},
+	{"os.mkdir-with-mode", modos.Mkdir, func() []object.Object { return []object.Object{strArg("/newdir"), object.NewInt(0o750)} }, "Mkdir"},
+	{"os.mkdir_all-with-mode", modos.MkdirAll, func() []object.Object { return []object.Object{strArg("/n1/n2"), object.NewInt(0o750)} }, "MkdirAll"},
+	{"os.write_file-with-mode", modos.WriteFile, func() []object.Object {
+		return []object.Object{strArg("/newfile"), strArg("x"), object.NewInt(0o600)}
+	}, "WriteFile"},
 	{"fmt.println", modfmt.Println, func() []object.Object { return []object.Object{strArg("x")} }, "Stdout"},
 	{"fmt.printf", modfmt.Printf, func() []object.Object { return []object.Object{strArg("%s"), strArg(verifrt.String(1))} }, "Stdout"},
 	{"printf-int", modfmt.Printf, func() []object.Object { return []object.Object{strArg("%d"), object.NewInt(verifrt.Int64())} }, "Stdout"},
@@ -195,6 +201,13 @@ func HarnessC12HostOSMediatesEverything() {
 	_ = res
 	verifrt.Reach("called")
 	verifrt.Assert(rec.used(e.want), e.name+":served-by-host-os")
+	// what the in-memory host OS can do succeeds for the script: an error here
+	// means something other than the host OS was consulted
+	switch e.name {
+	case "os.mkdir-with-mode", "os.mkdir_all-with-mode", "os.write_file-with-mode":
+		_, isErr := res.(*object.Error)
+		verifrt.Assert(!isErr, e.name+":succeeds-on-the-host-os")
+	}
 	// the host OS is handed exactly the script's arguments
 	for _, spec := range c12ArgMethods[e.name] {
 		want := spec.method + ":"
